@@ -456,6 +456,77 @@ def check_dim_grid(case, rec):
     make_check(ops.BY_NAME[case["op"]])(case, rec)
 
 
+# ---------------------------------------------------------------------------------------------
+# operators whose OTHER operand is not a Tensor (reflected forms): list @ t, t @ list, s - t, s / t, s ** t
+# ---------------------------------------------------------------------------------------------
+@st.composite
+def reflected_cases(draw):
+    n, k, m = draw(st.integers(1, 4)), draw(st.integers(1, 4)), draw(st.integers(1, 4))
+    form = draw(st.sampled_from(["list@t", "t@list", "batched list@t", "s-t", "s/t", "s**t", "s+t", "s*t"]))
+    bt = [draw(st.integers(1, 3))] if form == "batched list@t" else []
+    return {"form": form, "a": draw(gen.grid([n, k], -16, 16)), "b": draw(gen.grid_away_from_zero(bt + [k, m])), "n": n, "k": k, "m": m,
+            "bt": bt, "s": draw(st.sampled_from([2, 0.5, -3, 1.5, 1, 0])), "dtype": draw(gen.DTYPES), "rg": draw(st.booleans()),
+            "g": draw(gen.upstream())}
+
+
+def check_reflected(c, rec):
+    Tensor = sg.Tensor
+    dt = np.dtype(c["dtype"])
+    n, k, m = c["n"], c["k"], c["m"]
+    a = gen.arr(c["a"], [n, k], np.float64)                 # plain nested list operand (float32-exact values)
+    b = gen.arr(c["b"], c["bt"] + [k, m], dt)
+    t = Tensor(b.copy(), requires_grad=c["rg"])
+    f = c["form"]
+    rec.tag(f)
+    rec.nontrivial(True)
+    s_ = c["s"]
+    lst = gen.cyc(c["a"], (m, 2), np.float64)               # right-hand plain list operand of t @ list
+    try:
+        if f in ("list@t", "batched list@t"):
+            out = a.tolist() @ t
+            want = np.einsum("ik,...kj->...ij", a, b.astype(np.float64))
+            gw = lambda g: np.einsum("ik,...ij->...kj", a, g)                       # noqa: E731
+        elif f == "t@list":
+            out = t @ lst.tolist()
+            want = b.astype(np.float64) @ lst
+            gw = lambda g: g @ lst.T                                                 # noqa: E731
+        elif f == "s-t":
+            out = s_ - t; want = s_ - b.astype(np.float64); gw = lambda g: -g       # noqa: E731,E702
+        elif f == "s+t":
+            out = s_ + t; want = s_ + b.astype(np.float64); gw = lambda g: g        # noqa: E731,E702
+        elif f == "s*t":
+            out = s_ * t; want = s_ * b.astype(np.float64); gw = lambda g: s_ * g   # noqa: E731,E702
+        elif f == "s/t":
+            out = s_ / t; want = s_ / b.astype(np.float64); gw = lambda g: -s_ * g / b.astype(np.float64) ** 2   # noqa: E731,E702
+        else:
+            if s_ <= 0:
+                rec.skip = "base_not_positive"
+                return
+            out = s_ ** t; want = float(s_) ** b.astype(np.float64); gw = lambda g: g * want * np.log(s_)       # noqa: E731,E702
+    except Exception as e:  # noqa: BLE001
+        raise Violation("rejected_documented", f"{f} raised {type(e).__name__}: {e}; {c}", region=f)
+    if not isinstance(out, Tensor):
+        raise Violation("shape", f"{f} returned {type(out).__name__}, not a Tensor; {c}", region=f)
+    if out.shape != want.shape:
+        raise Violation("shape", f"{f}: shape {out.shape} != {want.shape}; {c}", region=f)
+    if out.dtype != dt:
+        raise Violation("dtype", f"{f}: a Python operand changed the result dtype to {out.dtype} (tensor is {dt}); {c}", region=f)
+    tol = (1e-12 if dt == np.float64 else 2e-6) * max(1.0, float(np.abs(want).max()))
+    if np.abs(np.asarray(out.data, dtype=np.float64) - want).max() > tol:
+        raise Violation("value", f"{f}: values differ from the NumPy result by "
+                                 f"{np.abs(np.asarray(out.data, dtype=np.float64) - want).max():.3e}; {c}", region=f)
+    if out.requires_grad != c["rg"]:
+        raise Violation("flag", f"{f}: requires_grad {out.requires_grad}, the tensor operand's is {c['rg']}; {c}", region=f)
+    if c["rg"]:
+        g = gen.cyc(c["g"], out.shape, dt)
+        out.backward(Tensor(g.copy()))
+        wantg = gw(g.astype(np.float64))
+        got = np.asarray(t.grad.data, dtype=np.float64)
+        gt = (1e-10 if dt == np.float64 else 2e-4) * max(1.0, float(np.abs(wantg).max()))
+        if got.shape != wantg.shape or np.abs(got - wantg).max() > gt:
+            raise Violation("value", f"{f}: gradient of the tensor operand differs from the closed form; {c}", region=f + "/grad")
+
+
 def subchecks():
     subs = []
     for op in ops.OPS:
@@ -464,6 +535,7 @@ def subchecks():
     subs.append(SubCheck("constructors", check_ctor, ctor_cases, quick=600, thorough=8000, shards_thorough=2))
     subs.append(SubCheck("iteration", check_iter, iter_cases, quick=300, thorough=5000, shards_thorough=2))
     subs.append(SubCheck("float16_mean", check_f16, f16_cases, quick=150, thorough=2000))
+    subs.append(SubCheck("reflected_operators", check_reflected, reflected_cases, quick=400, thorough=4000))
     subs.append(SubCheck("int_tensor_scalar", check_int_scalar, int_scalar_cases, quick=300, thorough=3000))
     subs.append(SubCheck("dim_grid", check_dim_grid, None, enum=enum_dims, exhaustive=True, shards_quick=8, shards_thorough=16))
     return subs
